@@ -203,14 +203,14 @@ enum UnionMode {
 /// This is used for type checking (can I assign this value to this variable?).
 pub fn is_compatible<T: TypeLookup>(self_id: usize, pattern_id: usize, lookup: &T) -> bool {
     let mut assumptions = HashSet::new();
-    let mut type_stack = Vec::new();
     check_type_relation(
         self_id,
         pattern_id,
         lookup,
         UnionMode::All,
         &mut assumptions,
-        &mut type_stack,
+        &mut Vec::new(),
+        &mut Vec::new(),
     )
 }
 
@@ -222,14 +222,14 @@ pub fn is_compatible<T: TypeLookup>(self_id: usize, pattern_id: usize, lookup: &
 /// This is used for pattern matching (could this value possibly match this pattern?).
 pub fn types_overlap<T: TypeLookup>(self_id: usize, pattern_id: usize, lookup: &T) -> bool {
     let mut assumptions = HashSet::new();
-    let mut type_stack = Vec::new();
     check_type_relation(
         self_id,
         pattern_id,
         lookup,
         UnionMode::Any,
         &mut assumptions,
-        &mut type_stack,
+        &mut Vec::new(),
+        &mut Vec::new(),
     )
 }
 
@@ -248,7 +248,8 @@ fn check_type_relation<T: TypeLookup>(
     lookup: &T,
     mode: UnionMode,
     assumptions: &mut HashSet<(usize, usize)>,
-    type_stack: &mut Vec<usize>,
+    self_stack: &mut Vec<usize>,
+    pattern_stack: &mut Vec<usize>,
 ) -> bool {
     // Fast path: same ID always satisfies the relation
     if self_id == pattern_id {
@@ -291,26 +292,43 @@ fn check_type_relation<T: TypeLookup>(
         // When both are cycles with same depth, they refer to the same recursive type
         (Type::Cycle(d1), Type::Cycle(d2)) if d1 == d2 => true,
 
-        // Handle cycles by looking up the type in the stack
+        // Handle cycles by looking up the type in the stack of their own side: a cycle in
+        // `self` refers to a union enclosing it in `self`, not to one of the pattern's.
         (Type::Cycle(depth), _) => {
-            if type_stack.len() < *depth {
+            if self_stack.len() < *depth {
                 return true; // Coinductive reasoning
             }
-            let lookup_index = type_stack.len() - *depth;
-            if let Some(&stack_id) = type_stack.get(lookup_index) {
-                check_type_relation(stack_id, pattern_id, lookup, mode, assumptions, type_stack)
+            let lookup_index = self_stack.len() - *depth;
+            if let Some(&stack_id) = self_stack.get(lookup_index) {
+                check_type_relation(
+                    stack_id,
+                    pattern_id,
+                    lookup,
+                    mode,
+                    assumptions,
+                    self_stack,
+                    pattern_stack,
+                )
             } else {
                 true
             }
         }
 
         (_, Type::Cycle(depth)) => {
-            if type_stack.len() < *depth {
+            if pattern_stack.len() < *depth {
                 return true;
             }
-            let lookup_index = type_stack.len() - *depth;
-            if let Some(&stack_id) = type_stack.get(lookup_index) {
-                check_type_relation(self_id, stack_id, lookup, mode, assumptions, type_stack)
+            let lookup_index = pattern_stack.len() - *depth;
+            if let Some(&stack_id) = pattern_stack.get(lookup_index) {
+                check_type_relation(
+                    self_id,
+                    stack_id,
+                    lookup,
+                    mode,
+                    assumptions,
+                    self_stack,
+                    pattern_stack,
+                )
             } else {
                 true
             }
@@ -324,6 +342,10 @@ fn check_type_relation<T: TypeLookup>(
             let saved = assumptions.clone();
             assumptions.insert(key);
 
+            let already_on_stack = self_stack.contains(&self_id);
+            if !already_on_stack {
+                self_stack.push(self_id);
+            }
             let result = match mode {
                 UnionMode::All => variants.iter().all(|&variant_id| {
                     check_type_relation(
@@ -332,7 +354,8 @@ fn check_type_relation<T: TypeLookup>(
                         lookup,
                         mode,
                         assumptions,
-                        type_stack,
+                        self_stack,
+                        pattern_stack,
                     )
                 }),
                 UnionMode::Any => variants.iter().any(|&variant_id| {
@@ -342,10 +365,14 @@ fn check_type_relation<T: TypeLookup>(
                         lookup,
                         mode,
                         assumptions,
-                        type_stack,
+                        self_stack,
+                        pattern_stack,
                     )
                 }),
             };
+            if !already_on_stack {
+                self_stack.pop();
+            }
             if !result {
                 *assumptions = saved;
             }
@@ -361,15 +388,23 @@ fn check_type_relation<T: TypeLookup>(
             let saved = assumptions.clone();
             assumptions.insert(key);
 
-            let already_on_stack = type_stack.contains(&pattern_id);
+            let already_on_stack = pattern_stack.contains(&pattern_id);
             if !already_on_stack {
-                type_stack.push(pattern_id);
+                pattern_stack.push(pattern_id);
             }
             let result = variants.iter().any(|&variant_id| {
-                check_type_relation(self_id, variant_id, lookup, mode, assumptions, type_stack)
+                check_type_relation(
+                    self_id,
+                    variant_id,
+                    lookup,
+                    mode,
+                    assumptions,
+                    self_stack,
+                    pattern_stack,
+                )
             });
             if !already_on_stack {
-                type_stack.pop();
+                pattern_stack.pop();
             }
             if !result {
                 // a failed derivation withdraws its hypothesis (see the union-on-left arm)
@@ -406,7 +441,8 @@ fn check_type_relation<T: TypeLookup>(
                                 lookup,
                                 mode,
                                 assumptions,
-                                type_stack,
+                                self_stack,
+                                pattern_stack,
                             )
                     },
                 )
@@ -444,7 +480,8 @@ fn check_type_relation<T: TypeLookup>(
                                 lookup,
                                 mode,
                                 assumptions,
-                                type_stack,
+                                self_stack,
+                                pattern_stack,
                             )
                     })
             })
@@ -455,9 +492,15 @@ fn check_type_relation<T: TypeLookup>(
         // is the tuple-vs-partial test read the other way round.
         (Type::Partial { .. }, Type::Tuple(_)) => match mode {
             UnionMode::All => false,
-            UnionMode::Any => {
-                check_type_relation(pattern_id, self_id, lookup, mode, assumptions, type_stack)
-            }
+            UnionMode::Any => check_type_relation(
+                pattern_id,
+                self_id,
+                lookup,
+                mode,
+                assumptions,
+                pattern_stack,
+                self_stack,
+            ),
         },
 
         // Partial vs partial - check structural compatibility
@@ -486,9 +529,15 @@ fn check_type_relation<T: TypeLookup>(
             // with both sets of fields belongs to both partials (so they still overlap).
             fields2.iter().all(|(fname2, ftype2)| {
                 match fields1.iter().find(|(fname1, _)| fname1 == fname2) {
-                    Some((_, ftype1)) => {
-                        check_type_relation(*ftype1, *ftype2, lookup, mode, assumptions, type_stack)
-                    }
+                    Some((_, ftype1)) => check_type_relation(
+                        *ftype1,
+                        *ftype2,
+                        lookup,
+                        mode,
+                        assumptions,
+                        self_stack,
+                        pattern_stack,
+                    ),
                     None => matches!(mode, UnionMode::Any),
                 }
             })
@@ -506,16 +555,28 @@ fn check_type_relation<T: TypeLookup>(
             },
         ) => {
             let send_ok = match (send1, send2) {
-                (Some(s1), Some(s2)) => {
-                    check_type_relation(*s1, *s2, lookup, mode, assumptions, type_stack)
-                }
+                (Some(s1), Some(s2)) => check_type_relation(
+                    *s1,
+                    *s2,
+                    lookup,
+                    mode,
+                    assumptions,
+                    self_stack,
+                    pattern_stack,
+                ),
                 (None, _) | (_, None) => true,
             };
 
             let receive_ok = match (receive1, receive2) {
-                (Some(r1), Some(r2)) => {
-                    check_type_relation(*r1, *r2, lookup, mode, assumptions, type_stack)
-                }
+                (Some(r1), Some(r2)) => check_type_relation(
+                    *r1,
+                    *r2,
+                    lookup,
+                    mode,
+                    assumptions,
+                    self_stack,
+                    pattern_stack,
+                ),
                 (None, _) | (_, None) => true,
             };
 
@@ -535,33 +596,48 @@ fn check_type_relation<T: TypeLookup>(
                 receive: receive2,
             },
         ) => {
-            let already_on_stack = type_stack.contains(&pattern_id);
-            if !already_on_stack {
-                type_stack.push(pattern_id);
+            let pattern_on_stack = pattern_stack.contains(&pattern_id);
+            if !pattern_on_stack {
+                pattern_stack.push(pattern_id);
+            }
+            let self_on_stack = self_stack.contains(&self_id);
+            if !self_on_stack {
+                self_stack.push(self_id);
             }
 
             // Parameters are contravariant, results are covariant, receive is contravariant
-            let result =
-                check_type_relation(*param2, *param1, lookup, mode, assumptions, type_stack)
-                    && check_type_relation(
-                        *result1,
-                        *result2,
-                        lookup,
-                        mode,
-                        assumptions,
-                        type_stack,
-                    )
-                    && check_type_relation(
-                        *receive2,
-                        *receive1,
-                        lookup,
-                        mode,
-                        assumptions,
-                        type_stack,
-                    );
+            // (the two sides, and with them their stacks, change places)
+            let result = check_type_relation(
+                *param2,
+                *param1,
+                lookup,
+                mode,
+                assumptions,
+                pattern_stack,
+                self_stack,
+            ) && check_type_relation(
+                *result1,
+                *result2,
+                lookup,
+                mode,
+                assumptions,
+                self_stack,
+                pattern_stack,
+            ) && check_type_relation(
+                *receive2,
+                *receive1,
+                lookup,
+                mode,
+                assumptions,
+                pattern_stack,
+                self_stack,
+            );
 
-            if !already_on_stack {
-                type_stack.pop();
+            if !self_on_stack {
+                self_stack.pop();
+            }
+            if !pattern_on_stack {
+                pattern_stack.pop();
             }
             result
         }
